@@ -45,6 +45,16 @@ fn main() {
             let r = dst::check::run_check(&spec, &tier, base_seed(&args), threads);
             std::process::exit(r.exit);
         }
+        Some("batchjson") => {
+            // one chunk of a long batch, run in a child process (see batch::run_batch_auto)
+            let spec = dst::props::spec(args.get(2).expect("property id")).expect("registered property");
+            let fam = Family::parse(args.get(3).expect("family")).expect("family name");
+            let seed: u64 = args.get(4).and_then(|s| s.parse().ok()).expect("seed");
+            let start: u64 = args.get(5).and_then(|s| s.parse().ok()).expect("start");
+            let n: u64 = args.get(6).and_then(|s| s.parse().ok()).expect("count");
+            let o = dst::batch::run_batch(fam, seed, start, n, threads, 3600.0, spec.nontrivial);
+            println!("{}", dst::batch::to_json(&o));
+        }
         Some("replay") => {
             let path = args.get(2).expect("replay file");
             match dst::check::replay_file(Path::new(path)) {
